@@ -270,8 +270,9 @@ def run(m: Model, r: Report, tier: str) -> None:
                         "unhexlify validator, so the stored value is encoded twice ('aabb' -> '61616262') and a rerun silently uses other bytes", loc=f"{mod_.relpath}:{n.lineno}")
     if n_cfgdict < 1:
         raise AnalysisError("no ConfigDict(...) found in gallia (BaseCommandConfig.model_config)")
-    from sa.uds_rules import ranges_validator_accepts_stored_form
+    from sa.uds_rules import ranges_validator_accepts_stored_form, dddi_sources_accept_stored_form
     ranges_validator_accepts_stored_form(m, r, "R5")
+    dddi_sources_accept_stored_form(m, r, "R5")
     r.check("gallia_class.CONFIG_TYPE(**config)" in ast.unparse(rer.node), "R5", f"{rer.qualname}#reinstantiate", "the rerunner must re-instantiate CONFIG_TYPE from the stored mapping", loc=rer.loc)
 
     # ---------------------------------------------------------------- R6
